@@ -35,7 +35,11 @@ def _package(run, sc, viol):
     res.stats = run.stats
     res.executed = run.executed
     if viol is None:
-        run.finish()
+        try:
+            run.finish()
+        except Violation as v:  # oracles that judge the whole history (C13 twin execution)
+            viol = v
+    if viol is None:
         res.nontrivial = bool(sc.nontrivial(run))
     else:
         res.nontrivial = False
